@@ -43,6 +43,30 @@ CHECKS = {
     "C16": {"engine": "jlmon", "technique": _T + " (character-based substr model; split/recombine, suffix, contiguity, cat-in-pieces laws)",
             "text": "Exhaustive short strings over a 1/2/3/4-byte + combining-mark alphabet x all small and extreme start / length values; results judged against a character-based model and against laws that need no model (split/recombine, negative start = suffix, result is a contiguous character run); cat judged against the reference string forms and associativity.",
             "note": "substr on a non-string first operand or non-integer offsets is unjudged (not determined by the statement)."},
+    "C02": {"engine": "jlmon", "technique": _T + " (identity on non-rules incl. near-miss keys and operation-shaped members; no-log monitor; distinguishing dispatch tuples)",
+            "text": "Every way a value can look like a rule without being one is generated from the 35 operator names and evaluated against data in which the embedded keys would resolve; an identity monitor requires the value back text-identical with no log line, and each operator is driven with a tuple on which its result differs from every other operator's. The product (name x near-miss derivation x operand shape x data) is enumerated completely; nesting inside operator arguments is sampled.",
+            "note": "Near-miss derivations are a finite catalogue (surrounding white space, case, prefix / suffix, look-alikes); a recogniser keyed on some other transformation would only be seen through the random part."},
+    "C03": {"engine": "jlmon", "technique": _T + " (exhaustive operator x count x form arity monitor; bracket-less = bracketed law)",
+            "text": "The finite space operator x operand count 0..6 x spelling is enumerated completely and each cell is filled with type-valid and random operand tuples; the arity monitor needs only Ok/Err, the unary-form monitor compares {op: x} with {op: [x]} on outcome and log trace for every corpus value, and the model judges the value so that ignored surplus operands or invented defaults show up.",
+            "note": "Counts above 6 are not enumerated (the at-least / any operators are sampled up to 6); type-validity of the fixed tuples is itself checked by the model."},
+    "C04": {"engine": "jlmon", "technique": _T + " + effect monitor on captured stdout (marker data, probe multiplicity), model-free leak and substitution-law monitors",
+            "text": "Operation-shaped markers are planted in the data and pushed through every channel by which a data, default or computed value reaches an operator; a second interpretation pass becomes observable as a LEAK line on the captured stdout, as the secret in the result, or as a probe firing twice. The substitution law is checked on the implementation alone for all 22 eager operators.",
+            "note": "Channels are a finite catalogue (40) plus random rule trees; effects are observed through fd 1 redirection, so anything written elsewhere is C17's subject."},
+    "C05": {"engine": "jlmon", "technique": _T + " + log-trace judge (laziness and order made observable by poisoned and logging operands); if = ?: alias law",
+            "text": "All short operand lists over an alphabet of falsy / corner-truthy / data / poison / probe symbols, and random long and nested lists, are evaluated as if, ?:, and, or; the monitor compares value, Ok/Err and the exact sequence of probe lines with the single-pass model, so an operand evaluated although not selected shows either as an error or as an extra line.",
+            "note": "Probe lines from sibling operands of eager operators are compared as multisets (the statements do not fix that order); everything inside if / and / or is compared in order."},
+    "C11": {"engine": "jlmon", "technique": _T + " (path-resolution model; derived-path, default, whole-data and frame laws)",
+            "text": "For every node of hostile fixed and random trees the escaped path derived from the tree must resolve to exactly that node - a law that needs no model - with and without defaults, through computed keys, and unchanged when unrelated subtrees are mutated; boundary and extreme indices, string indexing by character and 53 awkward spellings are judged against the model.",
+            "note": "Float / out-of-range / non-scalar keys, non-canonical index spellings ('+1', '01', '-0'), a trailing dot and a lone trailing backslash are unjudged."},
+    "C12": {"engine": "jlmon", "technique": _T + " (relation monitor against the implementation's own var via a sentinel default; threshold laws)",
+            "text": "missing and missing_some are compared with the model and, independently, with what the implementation's own var finds for each key (sentinel default), over key lists with duplicates, null keys, null-valued and empty-valued fields, integer and dotted keys, all thresholds, and five ways of supplying the list.",
+            "note": "Where 'number of listed keys present' can be read with or without multiplicity / null keys and the readings differ, the case is unjudged; 'an absent key never counts as present' is judged under every reading."},
+    "C13": {"engine": "jlmon", "technique": _T + " + log-trace judge (one evaluation per element, in order); map-length and filter-subsequence laws",
+            "text": "Collections x expressions x initial values are enumerated over catalogues chosen to pin fold order (non-commutative expressions), scoping (outer-data probes, the exact two-key reduce context), element identity and the null / non-array conventions; value and probe trace are judged against the model and two model-free laws.",
+            "note": "A malformed expression that is never evaluated (empty collection) is unjudged."},
+    "C14": {"engine": "jlmon", "technique": _T + " + log-trace judge (short-circuit); none = not some and all/none duality laws; one-element-per-character monitor",
+            "text": "Collections of every kind the statement names (literal arrays of expressions, computed arrays, strings incl. multi-byte, empty, null, other) x predicates x the three quantifiers; short-circuiting is observed through probes and poisons placed after the deciding element; duality laws are checked on the implementation alone.",
+            "note": "Element expressions of a literal array after the deciding element may or may not be evaluated (optional lines; an error there is unjudged)."},
 }
 
 NOT_APPLICABLE = {}
